@@ -25,11 +25,18 @@ variable {K : Type} [DecidableEq K] (I : Interp K) (C : CalcOps K) (t : Table)
     variables among `d.vars`, and the unary chains consist of unary operators of the table.
     Without the first part the result may list more variables than `d` (a nested group listing a
     name that is not a variable of `d`); without the second the reference semantics `dArith.fn`
-    does not know the operator and the statement about the value is false. -/
+    does not know the operator and the statement about the value is false.
+
+    `hbop` (`BopAssoc`, added with the rules for the comparisons, `if` and `else`): the analogue of
+    `A.assoc` for these operators — the operator the table lists under such a name, if any, is
+    associative when it is flagged commutative.  It holds trivially for a table that does not flag
+    them (`bopAssoc_of_unflagged`).  That the table lists the operators of `d` with a binary role
+    is not assumed: it follows from the success `hp` (`Diff.partialDeepex_binT`). -/
 theorem partial_sound (A : C10.Arith I C t) (L : Laws (dArith I C t))
     (hnames : (t.map (·.repr)).Nodup)
     (hfn : ∀ n ∈ ["-", "ln", "sqrt", "sin", "cos", "sinh", "cosh", "tanh"],
       ∃ u, findUnaryOp t (String.toList n) = .ok u)
+    (hbop : BopAssoc I t)
     (d : DeepEx K) (hn : C10.Named d.vars d) (hnd : d.vars.Nodup)
     (hsorted : sortBy strLe d.vars = d.vars) (hA : d.Assoc I) (hf : Shortcut.Folded d)
     (hr : Ruled t d) (hsc : Scoped t d.vars d)
@@ -41,13 +48,14 @@ theorem partial_sound (A : C10.Arith I C t) (L : Laws (dArith I C t))
       d'.evalRelaxed I (d'.vars.map ρ) = .ok w.der := by
   have H : Diff.Hyp I t d.vars d := ⟨hn, hsc, hr, hA, hf⟩
   obtain ⟨⟨r1, r2, r3, r4, r5, r6⟩, hsub⟩ :=
-    (Diff.engine I C t A L hnames hfn d.vars ρ x i hnd hi fuel).1 d d' H hp w hw hreg
+    (Diff.engine I C t A L hnames hfn d.vars ρ x i hbop hnd hi fuel).1 d d' H hp w hw hreg
   have hstrict : d.vars.Pairwise (fun a b => strLt a b = true) := by
     have := sortBy_strLe_strict d.vars hnd
     rwa [hsorted] at this
   have hv : d'.vars = d.vars :=
     ParseAssembly.strict_ext _ _ r2 hstrict (fun y => ⟨r3 y, hsub y⟩)
-  exact ⟨hv, r1, r4, r5, Diff.lift_val I C t A hnames d.vars ρ x d hn hsc w hw, r6⟩
+  exact ⟨hv, r1, r4, r5, Diff.lift_val I C t A hnames d.vars ρ x d hn hsc
+    (Diff.partialDeepex_binT I C t d.vars i d d' fuel hn hp) w hw, r6⟩
 
 omit [DecidableEq K] in
 /-- **C05, operators without a rule.** If a binary operator of the top group (a group with at
@@ -147,6 +155,12 @@ theorem hfn : ∀ n ∈ ["-", "ln", "sqrt", "sin", "cos", "sinh", "cosh", "tanh"
   simp only [List.mem_cons, List.not_mem_nil, or_false] at hn
   rcases hn with rfl | rfl | rfl | rfl | rfl | rfl | rfl | rfl <;> exact ⟨_, rfl⟩
 
+/-- the table has no comparison, `if` or `else` -/
+theorem hbop : BopAssoc NI tbl := by
+  intro n hn o ho
+  simp only [List.mem_cons, List.not_mem_nil, or_false] at hn
+  rcases hn with rfl | rfl | rfl | rfl | rfl | rfl | rfl | rfl <;> cases ho
+
 theorem h_named : Named dxx.vars dxx := by
   simp [dxx, DeepEx.vars, Named, namedList, NamedNode]
 theorem h_assoc : dxx.Assoc NI := by
@@ -193,7 +207,7 @@ theorem demo (ρ : Str → Nat) :
     rw [hp] at this
     cases this
   | ok d' =>
-    have := partial_sound NI NC tbl AA LL hnames hfn dxx h_named (by simp [dxx, DeepEx.vars])
+    have := partial_sound NI NC tbl AA LL hnames hfn hbop dxx h_named (by simp [dxx, DeepEx.vars])
       (by rfl) h_assoc h_folded h_ruled h_scoped 0 xs rfl ρ 8 d' hp _ (hw ρ) rfl
     exact ⟨d', rfl, this.1, this.2.2.2.2.2⟩
 end Exmex.C05.Demo
